@@ -169,9 +169,12 @@ def file_to_blocks(include_path, lazy_file, delimiter=None):
             if not text:
                 return []
             parts = text.split(delimiter)
+            # the last part is empty exactly when the text ends with a delimiter:
+            # no empty trailing line then (as in ``decode``)
             yield from (
                 (line, lazy_file.path) if include_path else line
-                for line in [line + delimiter for line in parts[:-1]] + parts[-1:]
+                for line in [line + delimiter for line in parts[:-1]]
+                + (parts[-1:] if parts[-1] else [])
             )
         else:
             for line in f:
@@ -193,7 +196,9 @@ def decode(block, encoding, errors, line_delimiter):
         if not text:
             return []
         parts = text.split(line_delimiter)
+        # ``parts[-1]`` is empty exactly when the scan ended on a delimiter;
+        # ``text.endswith`` is not the same for delimiters that overlap themselves
         out = [t + line_delimiter for t in parts[:-1]] + (
-            parts[-1:] if not text.endswith(line_delimiter) else []
+            parts[-1:] if parts[-1] else []
         )
         return out
